@@ -67,6 +67,24 @@ func c20Sequence(ev *vlib.Evidence, idx int) {
 	a := &agent.Agent{EthNode: node, UpdateInterval: interval}
 	base := loopCensus()
 	running := false
+	pending := []string{} // outcomes of ended loops not yet collected by Wait, oldest first ("nil" / "err")
+	collect := func(what string) (string, bool) {
+		// Wait returns the oldest uncollected outcome
+		waitErr := make(chan error, 1)
+		go func() { waitErr <- a.Wait() }()
+		select {
+		case err := <-waitErr:
+			got := "nil"
+			if err != nil {
+				got = "err"
+			}
+			want := pending[0]
+			pending = pending[1:]
+			return fmt.Sprintf("%s; Wait -> %v", what, err), got == want
+		case <-time.After(10 * time.Second):
+			return what + "; Wait did not return", false
+		}
+	}
 	trace := []string{fmt.Sprintf("interval=%s", interval)}
 	fail := func(key string, extra map[string]interface{}) {
 		extra["trace"], extra["index"] = trace, idx
@@ -139,40 +157,36 @@ func c20Sequence(ev *vlib.Evidence, idx int) {
 					return
 				}
 			}
-		case k < 7 && running: // Stop + Wait
+		case k < 7 && running: // Stop (+ Wait, unless the outcome is left uncollected)
 			a.Stop()
-			waitErr := make(chan error, 1)
-			go func() { waitErr <- a.Wait() }()
-			select {
-			case err := <-waitErr:
-				trace = append(trace, fmt.Sprintf("Stop; Wait -> %v", err))
-				if err != nil {
-					fail("wait-error-after-clean-stop", map[string]interface{}{"err": err.Error()})
-					return
-				}
-			case <-time.After(10 * time.Second):
-				fail("wait-did-not-return-after-stop", map[string]interface{}{})
-				return
-			}
+			pending = append(pending, "nil")
 			running = false
+			if r.Intn(4) == 0 {
+				trace = append(trace, "Stop (outcome not collected)")
+			} else {
+				for len(pending) > 0 {
+					line, ok := collect("Stop")
+					trace = append(trace, line)
+					if !ok {
+						fail("wait-outcome-after-stop", map[string]interface{}{})
+						return
+					}
+				}
+			}
 			if n := settleCensus(base) - base; n != 0 {
 				fail("loop-alive-after-stop", map[string]interface{}{"loops": n})
 				return
 			}
 		case k < 8 && running: // a keep-alive fails: the loop ends with the error
 			failUpdateAtV.Store(int64(sp.numUpdates() + 1))
-			waitErr := make(chan error, 1)
-			go func() { waitErr <- a.Wait() }()
-			select {
-			case err := <-waitErr:
-				trace = append(trace, fmt.Sprintf("keep-alive fails; Wait -> %v", err))
-				if err == nil {
-					fail("wait-nil-after-failed-keepalive", map[string]interface{}{})
+			pending = append(pending, "err")
+			for len(pending) > 0 {
+				line, ok := collect("keep-alive fails")
+				trace = append(trace, line)
+				if !ok {
+					fail("wait-outcome-after-failed-keepalive", map[string]interface{}{})
 					return
 				}
-			case <-time.After(10 * time.Second):
-				fail("wait-did-not-return-after-failed-keepalive", map[string]interface{}{})
-				return
 			}
 			running = false
 			failUpdateAtV.Store(0)
@@ -262,6 +276,40 @@ func c20Cadence(ev *vlib.Evidence, idx int) {
 	if n < 1 {
 		ev.Violate("cadence:no-keepalive-in-12-intervals", map[string]interface{}{"interval": interval.String(), "window": window.String()})
 	}
+}
+
+// c20LongRun: a healthy agent keeps its loop for longer than any per-call
+// timeout of the agent package (10 s) against a pool that honours contexts.
+func c20LongRun(ev *vlib.Evidence) {
+	c20Mu.Lock()
+	defer c20Mu.Unlock()
+	node := &vlib.FakeEth{ID: vlib.NewIdentity("c20self", 0).NodeID, NodeKind: ethnode.Geth, Full: true}
+	sp := &scriptedPool{}
+	a := &agent.Agent{EthNode: node, UpdateInterval: 100 * time.Millisecond}
+	base := loopCensus()
+	if err := a.Start(sp); err != nil {
+		ev.Violate("longrun:start-failed", map[string]interface{}{"err": err.Error()})
+		return
+	}
+	ended := make(chan error, 1)
+	go func() { ended <- a.Wait() }()
+	select {
+	case err := <-ended:
+		ev.Violate("longrun:loop-ended-by-itself", map[string]interface{}{"after": "less than 11.5 s", "wait_returned": fmt.Sprint(err), "keepalives": sp.numUpdates()})
+		settleCensus(base)
+		ev.Case("longrun", true)
+		return
+	case <-time.After(11500 * time.Millisecond):
+	}
+	n := sp.numUpdates()
+	if loopCensus()-base != 1 {
+		ev.Violate("longrun:loop-count", map[string]interface{}{"loops": loopCensus() - base})
+	}
+	a.Stop()
+	<-ended
+	settleCensus(base)
+	ev.Case("longrun", true)
+	ev.Count("longrun-keepalives", int64(n))
 }
 
 // buildVipnode builds the real binary from the repository's working tree.
@@ -371,7 +419,7 @@ func tailStr(s string, n int) string {
 
 func TestC20(t *testing.T) {
 	ev := vlib.NewEvidence("C20", "exploration",
-		"real agent.Agent with a scripted pool: random sequences of Start (pool healthy / failing at connect / failing at the first keep-alive), Stop+Wait, a keep-alive failing while running, forced UpdatePeers; the number of live keep-alive loops is observed directly after every step by counting agent.(*Agent).serveUpdates frames in a dump of all goroutine stacks; concurrent Starts; keep-alive cadence (count per window vs the logical ticker bound); the built vipnode binary run with --update-interval in {4s,5s,6s,60s,119s,120s,121s,10m,junk,-1s,0} against an in-memory pool and a fake node, accepted runs stopped with SIGINT; non-trivial = a sequence with at least one successful start and a refused second start or a restart; distinct = distinct traces")
+		"real agent.Agent with a scripted pool: random sequences of Start (pool healthy / failing at connect / failing at the first keep-alive), Stop (with the outcome collected by Wait or left uncollected), a keep-alive failing while running, forced UpdatePeers; the number of live keep-alive loops is observed directly after every step by counting agent.(*Agent).serveUpdates frames in a dump of all goroutine stacks; concurrent Starts; keep-alive cadence (count per window vs the logical ticker bound); an 11.5 s run against a pool that honours request contexts; the built vipnode binary run with --update-interval in {4s,5s,6s,60s,119s,120s,121s,10m,junk,-1s,0} against an in-memory pool and a fake node, accepted runs stopped with SIGINT; non-trivial = a sequence with at least one successful start and a refused second start or a restart; distinct = distinct traces")
 	ev.Assume("Stop is only called while a loop is running (Stop on an idle agent blocks by design of the API and is not part of the statement)")
 	for i := 0; i < vlib.Scale(300, 8000); i++ {
 		c20Sequence(ev, i)
@@ -382,6 +430,9 @@ func TestC20(t *testing.T) {
 	for i := 0; i < vlib.Scale(4, 20); i++ {
 		c20Cadence(ev, i)
 	}
-	c20CLI(ev)
+	cliDone := make(chan struct{})
+	go func() { c20CLI(ev); close(cliDone) }()
+	c20LongRun(ev)
+	<-cliDone
 	finish(t, ev)
 }
